@@ -82,7 +82,12 @@ def gen(rng, tier):
       kw = [p for p in PARAMS[k:] if rng.random() < 0.25]
       ops.append({'op': 'call', 'cons': cons, 'ambient': amb, 'npos': k,
                   'kw': kw, 'mutate': rng.random() < 0.7,
-                  'raises': rng.random() < 0.15})
+                  'raises': rng.random() < 0.15,
+                  # a producer body that itself makes a (bounded) consuming call:
+                  # the same reference may be evaluated while it is being
+                  # evaluated
+                  'reenter': ('cons%d' % rng.randrange(ncons))
+                             if rng.random() < 0.2 else None})
     elif r < 0.85:
       ops.append({'op': 'get_bindings', 'cons': cons, 'ambient': amb,
                   'mutate': True})
@@ -206,6 +211,17 @@ def run(case):
       t = log.tok(name)
       t.extra = gin.current_scope()
       prod_calls.append((name, t.extra, t.serial))
+      if ctx.get('reenter') and not ctx.get('reentered'):
+        ctx['reentered'] = True
+        saved = (ctx['expect'], ctx['mutate'], ctx['raises'], ctx['caller'])
+        ctx.update({'expect': None, 'mutate': False, 'raises': False,
+                    'caller': {}})
+        try:
+          with gin.config_scope(None):
+            cons[ctx['reenter']]()
+        except Exception as e:  # pylint: disable=broad-except
+          ctx['reenter_exc'] = e
+        (ctx['expect'], ctx['mutate'], ctx['raises'], ctx['caller']) = saved
       return t
     exp = ctx['expect']
     ctx['ran'] = True
@@ -300,7 +316,13 @@ def run(case):
       ctx.update({'expect': supplied, 'mutate': op['mutate'],
                   'raises': op['raises'], 'ambient': list(op['ambient']),
                   'caller': caller, 'ran': False,
-                  'pending_callable_checks': []})
+                  'pending_callable_checks': [],
+                  'reenter': op.get('reenter') if want_counts else None,
+                  'reentered': False, 'reenter_exc': None})
+      if ctx['reenter']:
+        # the nested call (under the root scope) evaluates its own references
+        for val in applicable(ctx['reenter'], []).values():
+          _count_eval(val, want_counts)
       exc = None
       try:
         with gin.config_scope(list(op['ambient']) if op['ambient'] else None):
@@ -317,6 +339,13 @@ def run(case):
       ctx['expect'] = None
       ctx['mutate'] = False
       ctx['raises'] = False
+      if ctx.get('reenter_exc') is not None:
+        v('C04.reentrant_evaluation', [type(ctx['reenter_exc']).__name__],
+          'call %r: a consuming call made from inside a producer body (while a '
+          'reference to that producer is being evaluated) raised %s: %s' %
+          (op, type(ctx['reenter_exc']).__name__,
+           probes.scrub(str(ctx['reenter_exc']))[:300]))
+      ctx['reenter'] = None
       if not ctx['ran'] and exc is None:
         v('C04.call_succeeds', ['body-not-run'], 'call %r: body did not run' % op)
       got_counts = {n: counters.get(n, 0) - before_counts.get(n, 0)
